@@ -63,6 +63,12 @@ def gen_network(rng) -> dict:  # noqa: ANN001
     else:
         names = ["A", "B"]
         rx = [("vin", {"A": 1}, v), ("vf", {"A": -1, "B": 1}, v + v2), ("vr", {"B": -1, "A": 1}, v2), ("vout", {"B": -1}, v)]
+    # declaration order is free: reactions in any order, and the compounds of one reaction in any order (a map's positions
+    # follow the reaction's own order of substrates and products, not the order in which compounds first appear in the model)
+    order_free = rng.random() < 0.6
+    if order_free:
+        rx = [(n, dict(rng.sample(list(st.items()), len(st))), f) for n, st, f in rng.sample(rx, len(rx))]
+        rng.shuffle(names)
     labels = {c: rng.randint(1, 3) for c in names}
     if topo in ("dimer", "cleavage"):
         labels["A"] = rng.randint(1, 2)
@@ -105,7 +111,7 @@ def gen_network(rng) -> dict:  # noqa: ANN001
             noninv = True
     for c in names:
         comps.append({"kind": "variable", "name": c, "value": pools[c]})
-    return {"topo": topo, "spec": {"components": comps}, "labels": labels, "maps": maps, "pools": pools, "fluxes": fluxes, "names": names, "noninvolutive": noninv}
+    return {"topo": topo, "spec": {"components": comps}, "labels": labels, "maps": maps, "pools": pools, "fluxes": fluxes, "names": names, "noninvolutive": noninv, "declaration_order_shuffled": order_free}
 
 
 def invert(m: list[int]) -> list[int]:
@@ -151,7 +157,7 @@ def run_case(case: dict) -> dict:
     net = gen_network(rng)
     base = rm.build(net["spec"])
     viols: list[dict] = []
-    counters = {f"topo:{net['topo']}": 1, "noninvolutive": int(net["noninvolutive"])}
+    counters = {f"topo:{net["topo"]}": 1, "noninvolutive": int(net["noninvolutive"]), "declaration_order_shuffled": int(net["declaration_order_shuffled"])}
     ctx = {"topology": net["topo"], "labels": net["labels"], "maps": net["maps"], "pools": net["pools"], "fluxes": net["fluxes"]}
     # sanity: the base model is at a metabolic steady state (harness construction)
     rhs0 = base.get_right_hand_side(net["pools"], 0.0)
